@@ -765,8 +765,16 @@ fn c05_ws_client(case: &Case) {
     let stall_after = pick(&[0usize, 1, 2, 5]);
     let stall_ms = pick(&[0u64, 3, 20, 200, 2_000]);
     let big = simkernel::choose(6) == 0;
-    let sizes: Vec<usize> = (0..nwriters).map(|_| if big { pick(&[8191usize, 8192, 8193, 20_000, 70_000]) } else { pick(&[0usize, 1, 63, 64, 65, 300, 1000, 3000]) }).collect();
-    let cancel_mode: Vec<u32> = (0..nwriters).map(|_| pick(&[0u32, 0, 0, 1, 2])).collect();
+    let mut sizes: Vec<usize> = (0..nwriters).map(|_| if big { pick(&[8191usize, 8192, 8193, 20_000, 70_000]) } else { pick(&[0usize, 1, 63, 64, 65, 300, 1000, 3000]) }).collect();
+    let mut cancel_mode: Vec<u32> = (0..nwriters).map(|_| pick(&[0u32, 0, 0, 1, 2])).collect();
+    // rarely: one multi-megabyte message (beyond any internal buffer), abandoned mid-send
+    if simkernel::choose(300) == 0 {
+        sizes[0] = pick(&[1_100_000usize, 2_500_000]);
+        cancel_mode[0] = pick(&[1u32, 2, 2]);
+        // (a wide pipe, or the byte-granular simulation of the transfer dominates the run)
+        net::set_config(NetConfig { capacity: 256 * 1024, lat_min: 0, lat_max: 100_000, max_segment: 0 });
+        simkernel::count("probe.multi_megabyte_message");
+    }
     case.sample(json!({"writers": nwriters, "capacity": capacity, "server_stalls_after_messages": stall_after, "stall_ms": stall_ms, "sizes": sizes, "cancel_mode": cancel_mode}));
     let case = case.clone();
     aio::run(&case.clone(), 3_600, async move {
